@@ -125,6 +125,22 @@ func checkC12(c C12Case) *Violation {
 			return vio("input-path:dev-stdin", "%s /dev/stdin differs from reading standard input\nstdin: %s\n/dev/stdin: %s%s", what, show(ref), show(r), ctx)
 		}
 	}
+	// 3a'. standard input may be a regular file of which the caller has read a first part already (a title line),
+	// and standard output a regular file that holds something already and is appended to (`>> notes.txt`)
+	if c.HasInput && len(c.Input)%4 == 1 {
+		skip := "title: the first line belongs to the caller\n"
+		r := Run{Argv: append([]string{}, c.Argv...), Stdin: c.Input, StdinSkip: skip, Files: c.Files}.Exec()
+		if !sameOutcome(ref, r) {
+			return vio("input-path:stdin-at-offset", "%s: reading a regular file from the offset the caller left it at differs from a pipe\npipe: %s\nfile at offset %d: %s%s", what, show(ref), len(skip), show(r), ctx)
+		}
+	}
+	if len(c.Input)%4 == 2 || !c.HasInput {
+		pre := "my notes\n"
+		r := Run{Argv: append([]string{}, c.Argv...), Stdin: c.Input, StdoutAppend: pre, Files: c.Files}.Exec()
+		if (r.Exit == 0) != (ref.Exit == 0) || string(r.Stdout) != pre+string(ref.Stdout) {
+			return vio("output-path:append-to-file", "%s >> notes.txt: exit %d (plain run %d); the file holds %d bytes, expected its %d old bytes followed by the %d bytes of the plain run%s", what, r.Exit, ref.Exit, len(r.Stdout), len(pre), len(ref.Stdout), ctx)
+		}
+	}
 	// 3b. an empty input is an empty input, whether it is an empty pipe, an empty file or /dev/null
 	if c.HasInput && c.Input == "" {
 		r := Run{Argv: append([]string{}, c.Argv...), NoStdin: true}.Exec()
